@@ -2,6 +2,7 @@
 from .. import poly
 from ..poly import Poly
 from ..interp import Arr, Pose, sym_pose, sym_vec, PI
+from ..algebra import _on_path
 from ..algebra import (POSES, CDIM, POINT_OF, run_obligation, run_tasks, record, ObFail, require_same, nterms, delta_vec,
                        ref_matrix, ref_R_t, matvec, no_bad_wrap, I)
 
@@ -12,6 +13,7 @@ def pose_equal(it, p, q, what, allow_neg_quat=True):
     """Equality of two pose values as rigid motions: same class, same position, same rotation."""
     if not isinstance(p, Pose) or not isinstance(q, Pose):
         raise ObFail("%s: not poses (%r, %r)" % (what, p, q))
+    p, q = _on_path(p), _on_path(q)
     if p.cls != q.cls or len(p.data) != len(q.data):
         raise ObFail("%s: pose classes differ (%s%s vs %s%s)" % (what, p.cls, p.shape, q.cls, q.shape))
     n = {"PoseR2": 2, "PoseR3": 3, "PoseSE2": 2, "PoseSE3": 3}[p.cls]
@@ -194,6 +196,64 @@ def laws(cls):
                    allow_neg_quat=False)
         return dict(terms=nterms(got))
 
+    def law_results_independent(it):
+        # every operator hands out a value of its own: a result the caller keeps is not rewritten by a later operation, and a
+        # result fed back as an operand (a (+) (b (+) x)) is read correctly
+        a, b = abc(it, 2)
+        c2, d2 = sym_pose(cls, "c", unit=True), sym_pose(cls, "e", unit=True)
+        pt, pt2 = sym_pose(POINT_OF[cls], "x"), sym_pose(POINT_OF[cls], "y")
+        is_point = POINT_OF[cls] == cls
+        forms = [("a (+) b", lambda u, v, x: add(it, u, v)), ("a (-) b", lambda u, v, x: pure(it, u, "__sub__", [v])),
+                 ("a.inverse", lambda u, v, x: pure(it, u, "inverse", [])), ("a.copy()", lambda u, v, x: it.call_method(u, "copy", []))]
+        if not is_point:
+            forms.append(("a (+) point", lambda u, v, x: add(it, u, x)))
+            forms.append(("a (+) bare ndarray point", lambda u, v, x: add(it, u, Arr(list(x.data), 1))))
+        kept = []
+        for name, f in forms:
+            r = f(a, b, pt)
+            kept.append((name, r, list(r.data)))
+        for name, f in forms:
+            f(c2, d2, pt2)
+        for name, r, seen in kept:
+            if len(r.data) != len(seen) or any(u is not v and u != v for u, v in zip(r.data, seen)):
+                raise ObFail("the result of %s, kept by the caller, changed when the operators were used on other poses "
+                             "(results share storage)" % name)
+        if not is_point:
+            R1, t1 = ref_R_t(it, a)
+            R2, t2 = ref_R_t(it, b)
+            inner = [u + v for u, v in zip(matvec(R2, list(pt.data)), t2)]
+            exp = [u + v for u, v in zip(matvec(R1, inner), t1)]
+            got = add(it, a, add(it, b, pt))
+            require_same(Arr(list(got.data), 1), Arr(exp, 1), "a (+) (b (+) x) != M(a) M(b) x (the inner result is not read correctly as an operand)")
+        return dict(forms=len(forms))
+
+    def law_constructor_dtype(it):
+        # a pose built from the caller's numbers (a list of ints, an integer or float32 array) holds them as float64
+        if cls in ("PoseR2", "PoseR3"):
+            raw = sym_vec("x", len(abc(it, 1)[0].data))
+            raw.foreign_dtype = True
+            p_ = it.construct(cls, [raw])
+            exp = list(raw.data)
+        elif cls == "PoseSE2":
+            raw = sym_vec("x", 2)
+            raw.foreign_dtype = True
+            t = poly.register_angle("t")
+            p_ = it.construct(cls, [raw, t])
+            exp = list(raw.data) + [None]
+        else:
+            raw, q = sym_vec("x", 3), sym_vec("q", 4)
+            raw.foreign_dtype = q.foreign_dtype = True
+            p_ = it.construct(cls, [raw, q])
+            exp = list(raw.data) + list(q.data)
+        if not isinstance(p_, Pose) or p_.cls != cls or len(p_.data) != len(exp):
+            raise ObFail("%s(...) returns %r" % (cls, p_))
+        for u, v in zip(p_.data, exp):
+            if v is not None and u != v:
+                raise ObFail("%s(...) does not hold the numbers it was given" % cls)
+        # in-place use must work in float64 whatever the caller's dtype was
+        it.call_method(p_, "__iadd__", [delta_vec(cls)])
+        return dict(components=len(exp))
+
     def law_accessors(it):
         a, = abc(it, 1)
         R, t = ref_R_t(it, a)
@@ -229,7 +289,8 @@ def laws(cls):
     out = [("M(a+b)=M(a)M(b)", law_matrix_product), ("a-b=inv(b)+a", law_ominus), ("inverse-two-sided", law_inverse),
            ("identity-two-sided", law_identity), ("associativity", law_assoc), ("point-action", law_point_action),
            ("boxplus=oplus(Pose(delta))", law_boxplus), ("accessors", law_accessors), ("identity-fresh", law_identity_fresh),
-           ("current-value-after-in-place-edit", law_current_value)]
+           ("current-value-after-in-place-edit", law_current_value), ("results-are-independent-values", law_results_independent),
+           ("constructor-holds-float64", law_constructor_dtype)]
     return out, dict(to_matrix=law_to_matrix, from_matrix=law_from_matrix)
 
 
@@ -259,5 +320,5 @@ def run(run_, pkg, tier):
                 return run_obligation(pkg, law, hook=hook, divisors=lambda name: True)
             anchor = pkg.method(cls, "__add__")
             tasks.append((key, "C09-group-law", task, "%s:%d" % (anchor._gs_module, anchor.lineno)))
-    run_.floor("group-law obligations", len(tasks) if run_.only is None else 43, 43)
+    run_.floor("group-law obligations", len(tasks) if run_.only is None else 51, 51)
     record(run_, tasks, run_tasks(pkg, tasks))
